@@ -36,7 +36,7 @@ SINGLE = [
     "-\n", "+\n", "- a\n-\n", "-\n- b\n", "```\nc\n```\n", "~~~\nc\n~~~\n", "    code\n", "<div>\nx\n</div>\n", "<!-- c -->\n", "[r]: /u\n", "[r]: /u\n'title'\n",
     "a|b\n-|-\n1|2\n", "|a|\n|-|\n", "> - a\n", "- > a\n", "- a\n  - b\n", "> # h\n", "> ```\n> c\n", "- ```\n  c\n  ```\n", "*e*\n", "a  \nb\n", "> a\n> ===\n",
     "# h\n- a\n-\n", "> q\n2. x\n", "- a\n\n  b\n", "1. a\n\n   b\n2. c\n", "* a\n+ b\n", "> a\n\n> b\n", "<pre>\n\nx\n</pre>\n", "[a]: /u\n[b]: /v\n", "a\n- b\n",
-    "a\n1. b\n", "a\n2. b\n", "a|b\n-|-\nc|d\n2. x\n", "a|b\n-|-\nc|d\n-\n", "|a|\n|-|\n7) x\n", "a|b\n-|-\n> q\n", "- a\n  - b\n", "1. a\n   1. b\n", "> - a\n>   - b\n", "a\n> b\n", "a\n# b\n", "a\n```\nb\n```\n", "  a\n", "   # h\n", "- a\n\n\n  b\n", "-   a\n\n    b\n", "10. a\n    b\n",
+    "a\n1. b\n", "a\n2. b\n", "[r]: /u\n\ntext [r]\n", "[r]: javascript:x\n", "[r]: data:text/html,x\n\n# after\n", "[R]: /v 'T'\n", "[r]: <\n", "[r]: /u \"t\n", "text [r] ![r]\n", "a|b\n-|-\nc|d\n2. x\n", "a|b\n-|-\nc|d\n-\n", "|a|\n|-|\n7) x\n", "a|b\n-|-\n> q\n", "- a\n  - b\n", "1. a\n   1. b\n", "> - a\n>   - b\n", "a\n> b\n", "a\n# b\n", "a\n```\nb\n```\n", "  a\n", "   # h\n", "- a\n\n\n  b\n", "-   a\n\n    b\n", "10. a\n    b\n",
 ]
 
 
@@ -67,7 +67,7 @@ def _case(draw):
     d = gen.D(draw)
     A = _doc(d)
     B = _doc(d)
-    cfg = d.pick(FIXED_CFGS) if d.chance(0.7) else gen.config_d(d, allow_linkify=False)
+    cfg = gen.maybe_late(d, d.pick(FIXED_CFGS)) if d.chance(0.7) else gen.config_d(d, allow_linkify=False)
     return {"A": A, "B": B, "cfg": cfg}
 
 
